@@ -53,7 +53,7 @@ def observe_all(m, toks):
     for v in A.VIEWS0:
         warm[v] = A.observe_view(warm_m, v)
         cold[v] = A.observe_view(A.clone_market(m, False), v)
-    for v in A.VIEWS1:
+    for v in A.VIEWS1 + A.HELPERS1:
         warm[v] = {t: A.observe_view(warm_m, v, t) for t in toks}
         cold[v] = {t: A.observe_view(A.clone_market(m, False), v, t) for t in toks}
     return warm, cold
@@ -149,6 +149,9 @@ def run_sequence(ctx: Ctx, rng, nsteps, reqs, meta, exact_env=False, pandas_stat
         return A.gen_op(rng, m, b, env), None
 
     def read_op():
+        if rng.random() < 0.15:
+            # a read-only helper outside the model's vocabulary (implementation + oracle only)
+            return {"kind": "helper", "view": rng.choice(A.HELPERS1), "tok": rng.choice(env["tokens"] + [A.UNKNOWN])}
         v = rng.choice(A.VIEWS0 + A.VIEWS0 + A.VIEWS1)
         op = {"kind": "read", "view": v}
         if v in A.VIEWS1:
@@ -165,7 +168,7 @@ def run_sequence(ctx: Ctx, rng, nsteps, reqs, meta, exact_env=False, pandas_stat
             if not pending:
                 op, nxt = draw()
                 pending.append((op, nxt))
-                if op["kind"] not in ("read", "newBar") and rng.random() < 0.5:
+                if op["kind"] not in ("read", "helper", "newBar") and rng.random() < 0.5:
                     # a strategy looking at a random subset of its figures right before it acts: the write (and, for update(),
                     # the liquidation) meets whatever mixture of warm and cold caches these reads leave behind
                     pending[:0] = [(read_op(), None) for _ in range(rng.choice([1, 1, 2, 3]))]
@@ -178,8 +181,14 @@ def run_sequence(ctx: Ctx, rng, nsteps, reqs, meta, exact_env=False, pandas_stat
             env = env_next
         s1 = A.dump_state(m, b, actions, n0)
         case = {"env": A.env_json(env_used), "state": s0, "op": op}
-        reqs.append(A.step_request(env_used, s0, op))
-        meta.append(("step", case, outcome, result, s1, filled(s0)))
+        if op["kind"] == "helper":
+            ctx.case(f"helper:{op['view']}:{outcome}:{filled(s0)}", {"op": op, "outcome": outcome})
+            core = lambda st: {k: st[k] for k in ("supplies", "borrows", "wallet", "hasUpdate")}    # noqa: E731
+            if core(s0) != core(s1) or s1["actions"]:
+                ctx.violate(f"helper-writes:{op['view']}", f"the read-only helper {op} changed positions / wallet / log / has_update", case)
+        else:
+            reqs.append(A.step_request(env_used, s0, op))
+            meta.append(("step", case, outcome, result, s1, filled(s0)))
         # ---- oracle: cached views == cold-cache views == Lean spec on the raw state
         toks = list(env["tokens"])
         warm, cold = observe_all(m, toks)
@@ -189,7 +198,7 @@ def run_sequence(ctx: Ctx, rng, nsteps, reqs, meta, exact_env=False, pandas_stat
                 what = (v, warm[v], cold[v])
                 break
         if what is None:
-            for v in A.VIEWS1:
+            for v in A.VIEWS1 + A.HELPERS1:
                 for t in toks:
                     if not A.same(warm[v][t], cold[v][t]):
                         what = (f"{v}({t})", warm[v][t], cold[v][t])
@@ -284,7 +293,7 @@ def replay(ctx: Ctx, case) -> bool:
         if not A.same(warm[v], cold[v]):
             print(f"   view {v}: cached {warm[v]} vs from scratch {cold[v]}")
             ok = False
-    for v in A.VIEWS1:
+    for v in A.VIEWS1 + A.HELPERS1:
         for t in env["tokens"]:
             if not A.same(warm[v][t], cold[v][t]):
                 print(f"   view {v}({t}): cached {warm[v][t]} vs from scratch {cold[v][t]}")
